@@ -490,5 +490,144 @@ func init() {
 		if s, ok := TopValue(ty, "rtpPackPrefix").(*ast.SelectorExpr); !ok || Src(s) != "rtp.TransferPrefix" {
 			e.Unknown("rtpPackPrefix")
 		}
+
+		// ---- the WebSocket transport an RTSP-over-WebSocket session reads through
+		wsFacts(e)
 	})
+}
+
+// positiveEOF: the condition holds only when `err == io.EOF` (the comparison itself or a conjunction containing it)
+func positiveEOF(x ast.Expr) bool {
+	switch v := x.(type) {
+	case *ast.ParenExpr:
+		return positiveEOF(v.X)
+	case *ast.BinaryExpr:
+		if v.Op.String() == "&&" {
+			return positiveEOF(v.X) || positiveEOF(v.Y)
+		}
+		if v.Op.String() == "==" {
+			a, b := Src(v.X), Src(v.Y)
+			return (a == "err" && b == "io.EOF") || (a == "io.EOF" && b == "err")
+		}
+	}
+	return false
+}
+
+// wsFacts: network/websocket/websocket.go (*websocketTransport).Read — where the current message
+// reader `c.reader` is taken, read and dropped
+func wsFacts(e *Emitter) {
+	ws := Parse("network/websocket/websocket.go")
+	dropOnlyAtEOF, nextOnlyWhenNil, setFromNext, readOnce := false, false, false, false
+	fd := FuncDecl(ws, "websocketTransport", "Read")
+	if fd == nil || fd.Recv == nil || len(fd.Recv.List) != 1 || len(fd.Recv.List[0].Names) != 1 || fd.Recv.List[0].Names[0].Name != "c" {
+		e.Unknown("websocketTransport.Read")
+	} else {
+		type guard struct {
+			cond ast.Expr
+			neg  bool
+		}
+		drops, dropsAtEOF, nexts, nextsGuarded, sets, setsOK, reads := 0, 0, 0, 0, 0, 0, 0
+		hasCall := func(n ast.Node, fun string) int {
+			k := 0
+			if n == nil {
+				return 0
+			}
+			ast.Inspect(n, func(x ast.Node) bool {
+				if _, ok := x.(*ast.FuncLit); ok {
+					e.Unknown("websocketTransport.Read: function literal")
+					return false
+				}
+				if c, ok := x.(*ast.CallExpr); ok && Src(c.Fun) == fun {
+					k++
+				}
+				return true
+			})
+			return k
+		}
+		var walk func(st ast.Stmt, gs []guard)
+		simple := func(st ast.Node, gs []guard) {
+			underNil := false
+			for _, g := range gs {
+				if !g.neg && Src(g.cond) == "c.reader == nil" {
+					underNil = true
+				}
+			}
+			if k := hasCall(st, "c.socket.NextReader"); k > 0 {
+				nexts += k
+				if underNil {
+					nextsGuarded += k
+				}
+			}
+			reads += hasCall(st, "c.reader.Read")
+			if as, ok := st.(*ast.AssignStmt); ok {
+				for i, l := range as.Lhs {
+					if Src(l) != "c.reader" {
+						continue
+					}
+					if len(as.Rhs) != len(as.Lhs) {
+						e.Unknown("websocketTransport.Read: c.reader assigned from a call")
+						continue
+					}
+					if Src(as.Rhs[i]) == "nil" {
+						drops++
+						for _, g := range gs {
+							if !g.neg && positiveEOF(g.cond) {
+								dropsAtEOF++
+								break
+							}
+						}
+					} else {
+						sets++
+						if Src(as.Rhs[i]) == "r" && underNil {
+							setsOK++
+						}
+					}
+				}
+			}
+		}
+		walk = func(st ast.Stmt, gs []guard) {
+			switch v := st.(type) {
+			case nil:
+			case *ast.BlockStmt:
+				for _, s := range v.List {
+					walk(s, gs)
+				}
+			case *ast.IfStmt:
+				if v.Init != nil {
+					simple(v.Init, gs)
+				}
+				simple(v.Cond, gs)
+				walk(v.Body, append(append([]guard(nil), gs...), guard{v.Cond, false}))
+				walk(v.Else, append(append([]guard(nil), gs...), guard{v.Cond, true}))
+			case *ast.ForStmt:
+				if v.Init != nil {
+					simple(v.Init, gs)
+				}
+				if v.Cond != nil {
+					simple(v.Cond, gs)
+				}
+				if v.Post != nil {
+					simple(v.Post, gs)
+				}
+				walk(v.Body, gs)
+			case *ast.AssignStmt, *ast.ExprStmt, *ast.ReturnStmt, *ast.DeclStmt, *ast.BranchStmt, *ast.IncDecStmt:
+				simple(st, gs)
+			default:
+				e.Unknown("websocketTransport.Read: statement " + strings.Join(strings.Fields(Src(st)), " "))
+			}
+		}
+		walk(fd.Body, nil)
+		dropOnlyAtEOF = drops >= 1 && drops == dropsAtEOF
+		nextOnlyWhenNil = nexts == 1 && nextsGuarded == 1
+		setFromNext = sets == 1 && setsOK == 1
+		readOnce = reads == 1
+	}
+	e.P("/-- network/websocket/websocket.go `(*websocketTransport).Read`: every `c.reader = nil` lies under a condition that holds only when `err == io.EOF` (and there is one) -/")
+	e.P("def wsReaderDroppedOnlyAtEOF : Bool := %s", LeanBool(dropOnlyAtEOF))
+	e.P("/-- … `c.socket.NextReader()` is called in one place, under `c.reader == nil` -/")
+	e.P("def wsNextReaderOnlyWhenNil : Bool := %s", LeanBool(nextOnlyWhenNil))
+	e.P("/-- … `c.reader` is set in one place, to the reader `NextReader` returned -/")
+	e.P("def wsReaderSetFromNextReader : Bool := %s", LeanBool(setFromNext))
+	e.P("/-- … one `c.reader.Read(b)` per call -/")
+	e.P("def wsReadOncePerCall : Bool := %s", LeanBool(readOnce))
 }
